@@ -63,10 +63,16 @@ with ThreadPoolExecutor(max_workers=jobs) as pool:
         d = os.path.join(HERE, "seeded", s)
         meta = json.load(open(os.path.join(d, "meta.json")))
         meta["detected_by"] = ([f"{pid}: " + "; ".join(v.split("replay=")[1] for v in o["violations"][:3])] if o.get("rc") == 1 else None)
+        if meta.get("superseded"):
+            o["superseded"] = meta["superseded"]
         meta["checked_at_verif_commit"] = commit
         if o.get("error") and o.get("rc") is None:
             meta["note_on_current_tree"] = o["error"]
         json.dump(meta, open(os.path.join(d, "meta.json"), "w"), indent=1)
         json.dump(results, open(resfile, "w"), indent=1)
-missed = [s for s in seeds if results.get(s) and list(results[s].values())[0].get("rc") != 1]
-print("missed / not applicable:", missed)
+def _superseded(s):
+    return bool(json.load(open(os.path.join(HERE, "seeded", s, "meta.json"))).get("superseded"))
+
+
+missed = [s for s in seeds if results.get(s) and list(results[s].values())[0].get("rc") != 1 and not _superseded(s)]
+print("missed:", missed, "| no longer property-breaking after a repair (silence is right):", [s for s in seeds if _superseded(s)])
